@@ -29,13 +29,17 @@ CLAIMED = {
              "variables; arities 0..5, n up to 8 (thorough 30), bases below/at/above 1 and e), with a Constant of "
              "each value class or a child of each class its methods inspect in every position, for composite and "
              "shared-subexpression (DAG) instances, after earlier (also failing) evaluations of the same object at "
-             "other points, and through the bare-number entry point, on every sign "
+             "other points, after construction and symbolic-differentiation histories on the same objects, and "
+             "through the bare-number entry point, on every sign "
              "region; the resulting closed-form term must have the same canonical form as the specification "
              "reading of the tree (the 13-row table in spec.py). Equal canonical forms prove equality of the "
              "real functions on the region; a reported violation always carries a numeric counter-instance of "
-             "the extracted term pair.",
-        note="Decides the real-arithmetic identity the code implements; does NOT decide the size of "
-             "floating-point rounding nor the 'exact on small integers/dyadics' clause. Trusted: ast, the "
+             "the extracted term pair. C01.exact: for the arithmetic constructors every rounded sub-term of the value "
+             "term must be an exact intermediate of the tree (no inexact reciprocal / logarithm in between).",
+        note="Decides the real-arithmetic identity the code implements and the structural part of the exactness "
+             "clause (no floating-point operation other than the tree's own); does NOT decide the size of "
+             "floating-point rounding, nor anything that depends on magnitudes near the ends of the double range. "
+             "Trusted: ast, the "
              "interpreter, the algebra's identities (listed in algebra.py), the specification table.",
         ref="4/C01"),
     "C03": dict(
@@ -161,12 +165,15 @@ CLAIMED = {
         technique="static abstract interpretation of operation histories + CFG dominance / must-pass-through rules",
         text="Histories (length 1-5; exhaustive over the stale-memo shapes, sampled beyond) of evaluation, late/early "
              "partials on kept objects, located/early differentials, as_expression (switching a late object to its "
-             "symbolic path), normalisation and failing calls are interpreted over a pool of 7 expressions that share "
-             "sub-expression objects at 5 concrete points; the final operation must give bit-for-bit the answer of a "
-             "fresh pool. CFG rules carry this to any history: every root traversal call is dominated by a cache reset "
+             "symbolic path), normalisation and failing calls are interpreted over a pool of 14 expressions that share "
+             "sub-expression objects at 5 concrete points (incl. failing ones and a missing coordinate); the final "
+             "operation must give the answer of a fresh pool (numbers up to rounding, because a late object "
+             "legitimately switches route). CFG rules carry this to any history: every root traversal call is dominated by a cache reset "
              "on the same receiver; each reset clears every memo _evaluate writes and recurses into every child on all "
-             "paths; no module keeps mutable state that functions touch.",
-        note="Sampling uses VERIF_SEED. The give-up exit of _fully_reduce (C11 budget) is a stated caveat.",
+             "paths; every field an expression class writes outside constructor, reset and rewriting protocol is assigned "
+             "by its reset chain; no module keeps mutable state that functions touch.",
+        note="Sampling uses VERIF_SEED. The give-up exit of _fully_reduce (C11 budget) is a stated caveat. Defect F6 "
+             "(history dependence through a missing coordinate) was found here and repaired in /repo (7056138).",
         ref="4/C09"),
     "C10": dict(
         technique="static write-effect / ownership analysis + abstract interpretation of histories with structural snapshots",
